@@ -135,9 +135,11 @@ def wl_xdh(ctx, config):
         want = ellswift.xdh_bip324(ell_a, ell_b, x) if mode == 0 else (ellswift.xdh_prefix(pre, ell_a, ell_b, x) if mode == 1 else b32(x))
         ctx.check(ra.b(1) == want, "ellswift_xdh:output", "ell_a=%s ell_b=%s sk=%x mode=%d want %s got %s" % (ell_a.hex(), ell_b.hex(), da, mode, want.hex(), ra.b(1).hex()), config)
         if kb is not None:
-            rb = ctx.call("ellswift_xdh", ell_a, ell_b, b32(kb), 1, mode, pre, config=config)
+            # "party: boolean indicating which party we are: zero if we are party A, non-zero if we are party B"
+            party = 1 if it % 3 else rng.choice((2, 4, 256, -2, -1, 3, 2**31 - 1, -2**31, 0x10000, 0x7ffffffe, rng.randrange(2, 2**31), -rng.randrange(1, 2**31)))
+            rb = ctx.call("ellswift_xdh", ell_a, ell_b, b32(kb), party, mode, pre, config=config)
             if rb is not None:
-                ctx.ev("ellswift_xdh", "party_b:mode%d" % mode, True, ell_a, ell_b, b32(kb), mode)
+                ctx.ev("ellswift_xdh", "party_b%s:mode%d" % ("" if party == 1 else ":nonzero_not_1", mode), True, ell_a, ell_b, b32(kb), mode, party)
                 ctx.check(rb.ret == 1 and rb.b(1) == ra.b(1), "ellswift_xdh:parties_disagree", "ell_a=%s ell_b=%s" % (ell_a.hex(), ell_b.hex()), config)
 
 def run(ctx):
